@@ -278,6 +278,18 @@ def evaluate(case):
                     twice.filter_frequencies(lib, force_real=fr)
                     got_twice = np.array(twice.values)
                     exp_twice, _ = dft.filtered_reference(exts["ramp"], dt, lambda f_, ref=ref: ref(f_) ** 2, fr, use_fft=2 * m > 160)
+                    # mixed flags: this response with force_real, then a one-sample delay without it (each filter keeps its own
+                    # flag: only the first is Hermitian-symmetrised); on a leading buffer of 3.5 samples
+                    mixed = mk(exts["ramp"])
+                    mixed.set_buffers(leading=(nb + 0.5) * dt, force=True)
+                    mixed.filter_frequencies(lib, force_real=True)
+                    mixed.filter_frequencies(resp["delay+1"][0], force_real=False)
+                    got_mixed = np.array(mixed.values)
+                    ext1 = np.concatenate(([0.0], exts["ramp"]))       # one more leading sample; the tabulated function is 0 out there
+                    d1 = resp["delay+1"][1]
+                    exp_mixed, _ = dft.filtered_reference(
+                        ext1, dt, lambda f_, ref=ref, d1=d1: (complex(ref(abs(f_))) if f_ >= 0 else complex(ref(abs(f_))).conjugate()) * d1(f_),
+                        False, use_fft=2 * (m + 1) > 160)
                 except Exception as e:
                     from ..engine import src
                     fails.append(_f("exception", case, rname, "function:sum", "sum of filtered FunctionSignals raised " + src.short_tb(e)))
@@ -291,6 +303,12 @@ def evaluate(case):
                     fails.append(_f("function-signal-twice", case, rname, "function:sum",
                                     "a FunctionSignal filtered twice with the same response: %s..., the response squared gives %s..."
                                     % (got_twice[:4].tolist() if got_twice.shape == (n,) else got_twice.shape, exp_twice[nb:nb + 4].tolist())))
+                if other == "unit" and rname != "delay+1" and (
+                        got_mixed.shape != (n,) or not np.max(np.abs(got_mixed - exp_mixed[nb + 1:nb + 1 + n])) <= tol * max(1.0, maxabs)):
+                    fails.append(_f("function-signal-mixed-flags", case, rname, "function:sum",
+                                    "FunctionSignal with a 3.5-sample leading buffer, filtered with this response (force_real) and then a "
+                                    "one-sample delay (no force_real): %s..., reference %s..."
+                                    % (got_mixed[:4].tolist() if got_mixed.shape == (n,) else got_mixed.shape, exp_mixed[nb + 1:nb + 5].tolist())))
                 if got.shape != want.shape or not np.max(np.abs(got - want)) <= tol:
                     fails.append(_f("function-signal-sum", case, rname, "function:sum",
                                     "(x filtered with %s) + (y filtered with %s) evaluates to %s..., the two summands evaluated separately "
